@@ -700,3 +700,35 @@ Example ex_wms_prune_nontrivial :
   flat_map s_ids (render_layers true [ex_w_base; ex_w_top]) = [2; 3] /\
   flat_map s_ids (render_layers false [ex_w_base; ex_w_top]) = [1; 2; 3].
 Proof. split; [|split; vm_compute; reflexivity]. vm_compute. repeat constructor; simpl; intuition discriminate. Qed.
+
+(* ------------------------------------------------------------------ layer level resolution ranges *)
+
+(* a layer without a configured range renders every request that one of its members renders, provided the
+   merged range is a hull of the member ranges (hypothesis about grid.merge_resolution_range: the largest min_res
+   and the smallest max_res contain whatever one member range contains) *)
+Lemma layer_res_ok_member : forall members hull_ok h,
+  (forallb fst members = true -> existsb snd members = true -> hull_ok = true) ->
+  In (h, true) members -> layer_res_ok None members hull_ok = true.
+Proof.
+  intros members hull_ok h HULL I. unfold layer_res_ok, merged_res_ok.
+  destruct members as [|m ms]; [reflexivity|].
+  destruct (forallb fst (m :: ms)) eqn:F; [|reflexivity].
+  apply HULL; [reflexivity|]. apply existsb_exists. exists (h, true). split; [exact I|reflexivity].
+Qed.
+
+(* a member without a range makes the layer unlimited *)
+Lemma layer_res_ok_unlimited_member : forall members hull_ok r,
+  In (false, r) members -> layer_res_ok None members hull_ok = true.
+Proof.
+  intros members hull_ok r I. unfold layer_res_ok, merged_res_ok.
+  destruct members as [|m ms]; [reflexivity|].
+  destruct (forallb fst (m :: ms)) eqn:F; [|reflexivity].
+  rewrite forallb_forall in F. specialize (F _ I). discriminate.
+Qed.
+
+Example layer_res_ok_examples :
+  layer_res_ok None [(false, true); (true, false)] false = true /\
+  layer_res_ok None [(true, false); (true, false)] false = false /\
+  layer_res_ok (Some false) [(false, true)] true = false.
+Proof. vm_compute. auto. Qed.
+
